@@ -724,7 +724,7 @@ impl Cell for FcCell {
     }
     // the two points in front of the utilization gauge are visited only by the cases that ask for them, so that
     // the step structure the schedules (and the Coq model) were written for stays what it was
-    fn skip_site(&self, site: u32) -> bool { !self.park_util && (site == FC_UTIL_SITE_A || site == FC_UTIL_SITE_F) }
+    fn skip_site(&self, site: u32) -> bool { !self.park_util && (site == FC_UTIL_SITE_A || site == FC_UTIL_SITE_F || site == FC_UTIL_SITE_S) }
 }
 unsafe impl Send for FcCell {}
 unsafe impl Sync for FcCell {}
@@ -732,6 +732,8 @@ unsafe impl Sync for FcCell {}
 /// utilization gauge, in allocate / deallocate (hook FC_ALLOC_UTIL / FC_FREE_UTIL)
 const FC_UTIL_SITE_A: u32 = 56;
 const FC_UTIL_SITE_F: u32 = 66;
+/// ... and between the load of active_blocks and the store of the gauge (hook FC_UTIL_STORE)
+const FC_UTIL_SITE_S: u32 = 57;
 
 struct SpCell { pool: Arc<SecureMemoryPool>, chunk: usize }
 impl Cell for SpCell {
@@ -993,7 +995,7 @@ fn run_lf_v(cx: &mut Ctx, size: usize, slots: usize, v: &Value, progs: &[Vec<Op>
             let x = fd.wrapping_sub(o.frees);
             if x > o.bulk_slack { f.push((None, format!("fast_deallocs = {} after {} frees", fd, o.frees))); }
             let fresh = carved.len() as u64;
-            if fa + fresh != o.allocs_ok + x || rolled > x { f.push((None, format!("fast_allocs {} + new blocks {} != successful allocations {}", fa, fresh, o.allocs_ok))); }
+            if x <= o.bulk_slack && (fa + fresh != o.allocs_ok + x || rolled > x) { f.push((None, format!("fast_allocs {} + new blocks {} != successful allocations {}", fa, fresh, o.allocs_ok))); }
             if stats[4] != fresh * bs as u64 { f.push((None, format!("memory_usage = {} but {} blocks of {} bytes were carved", stats[4], fresh, bs))); }
         }
         f
@@ -2134,7 +2136,7 @@ fn stress_gp(nthr: usize, iters: usize, seed: u64, hold: usize) -> Vec<String> {
 pub fn run(args: &Args) {
     if std::env::var("ZV_C08_DEBUG").is_ok() { let _ = std::panic::take_hook(); }
     let mut cx = Ctx {
-        sum: Summary::new("C08", "controlled schedules (real threads parked at every schedule point of the zipora_verif hooks): corpus witnesses, every interleaving of two threads x one operation on a pre-filled free list, every interleaving of short pop/push pairs, stalled-operation windows (one thread stops after k steps of an operation while another runs a whole program that drains and refills the list), LockFreeMemoryPool with zero_on_free through deallocate_with_zero (three and more blocks of a class freed and reallocated), SecureMemoryPool with local_cache_size < batch_size - 1 spilling to the shared stack and refilling another thread, MemoryPool with a thread parked under the queue lock, then random programs of 2-3 threads (alloc / free k-th held / owner overwrites the link word or header / foreign malloc; per-thread request sizes for the fixed-capacity pool) under burst-biased random schedules, block size and arena size varied so that exhaustion and reuse occur; free-running stress with an ownership table for every pool; a case is non-trivial when at least two threads execute operations; distinct = distinct (cell, programs, schedule)"),
+        sum: Summary::new("C08", "controlled schedules (real threads parked at every schedule point of the zipora_verif hooks): corpus witnesses, every interleaving of two threads x one operation on a pre-filled free list, every interleaving of short pop/push pairs, stalled-operation windows (one thread stops after k steps of an operation while another runs a whole program that drains and refills the list), LockFreeMemoryPool with zero_on_free through deallocate_with_zero (three and more blocks of a class freed and reallocated), SecureMemoryPool with local_cache_size < batch_size - 1 spilling to the shared stack and refilling another thread, MemoryPool with a thread parked under the queue lock, the oracle-breadth families of c08_wide.rs (bulk allocation under exhaustion and stalled part-way, compare-exchange retry storms with max_cas_retries 1-3 / back-off / 70 lost rounds, RAII guards, presets of every pool, size-class boundaries and the large-block / huge paths, five-level pools through AdaptiveFiveLevelPool::with_level + FiveLevelPoolHandle, fixed-capacity pools of other geometries / lazy arena / no statistics / utilization gauge, SecureMemoryPool hinted and bulk allocation, clear() racing with pops and pushes, observers in mid-history, cache size 0, 64 KiB / 1 MiB presets, builder options, MemoryPool::clear() between parked operations and presets), then random programs of 2-3 threads (alloc / free k-th held / owner overwrites the link word or header / foreign malloc; per-thread request sizes for the fixed-capacity pool; in every other case also bulk / hinted allocation, clear(), observers and a drawn configuration variant) under burst-biased random schedules, block size and arena size varied so that exhaustion and reuse occur; free-running stress with an ownership table for every pool and for every public way into it (bulk, guards, handles, presets as they are, clear(), global pools of all classes); a case is non-trivial when at least two threads execute operations; distinct = distinct (cell, programs, schedule)"),
         shards: CoqShards::new(HEADER, 250),
         coq_used: HashMap::new(),
         out: args.out.clone(), child_seq: 0, thorough: args.thorough, wide: false,
